@@ -597,6 +597,7 @@ func c17Forward(s *source, e *emitter, rel, goName, leanName string) {
 		}
 		results := map[string]int{}
 		var doCall func(c *ast.CallExpr) int
+		var doExpr func(x ast.Expr)
 		doCall = func(c *ast.CallExpr) int {
 			var args [][2]string
 			for ai, a := range c.Args {
@@ -619,11 +620,29 @@ func c17Forward(s *source, e *emitter, rel, goName, leanName string) {
 					k := doCall(x)
 					args = append(args, [2]string{"result", fmt.Sprint(k)})
 				default:
+					doExpr(a)
 					args = append(args, [2]string{"other", "0"})
 				}
 			}
 			calls = append(calls, call{callee: s.src(c.Fun), args: args})
 			return len(calls) - 1
+		}
+		// calls hidden in other expressions (index expressions, &x, parentheses) are emitted in evaluation order too
+		doExpr = func(x ast.Expr) {
+			switch y := x.(type) {
+			case *ast.CallExpr:
+				doCall(y)
+			case *ast.IndexExpr:
+				doExpr(y.X)
+				doExpr(y.Index)
+			case *ast.ParenExpr:
+				doExpr(y.X)
+			case *ast.UnaryExpr:
+				doExpr(y.X)
+			case *ast.BinaryExpr:
+				doExpr(y.X)
+				doExpr(y.Y)
+			}
 		}
 		var walk func(st ast.Stmt)
 		walk = func(st ast.Stmt) {
@@ -639,8 +658,12 @@ func c17Forward(s *source, e *emitter, rel, goName, leanName string) {
 						if id, ok := x.Lhs[0].(*ast.Ident); ok && id.Name != "_" && id.Name != "err" {
 							results[id.Name] = k
 						}
+					} else {
+						doExpr(x.Rhs[0])
 					}
 				}
+			case *ast.RangeStmt:
+				walk(x.Body)
 			case *ast.ExprStmt:
 				if c, ok := x.X.(*ast.CallExpr); ok {
 					doCall(c)
@@ -649,6 +672,7 @@ func c17Forward(s *source, e *emitter, rel, goName, leanName string) {
 				if x.Init != nil {
 					walk(x.Init)
 				}
+				doExpr(x.Cond)
 				walk(x.Body)
 				if x.Else != nil {
 					walk(x.Else)
@@ -786,6 +810,9 @@ func init() {
 		c17Forward(s, e, jf, "unmarshalJsonReader", "fwdUnmJsonReader")
 		c17Forward(s, e, cf, "LoadFromYamlBytes", "fwdConfYaml")
 		c17Forward(s, e, cf, "LoadFromTomlBytes", "fwdConfToml")
+		c17Forward(s, e, cf, "Load", "fwdConfLoad")
+		c17Forward(s, e, cf, "LoadFromJsonBytes", "fwdConfLoadJson")
+		c17Forward(s, e, cf, "FillDefault", "fwdConfFillDefault")
 		c17Forward(s, e, cf, "LoadConfig", "fwdConfLoadConfig")
 		c17Forward(s, e, cf, "MustLoad", "fwdConfMustLoad")
 		c17Forward(s, e, cf, "LoadConfigFromJsonBytes", "fwdConfLoadConfigJson")
